@@ -148,7 +148,7 @@ Search::Search(const Position& position, const Limits& limits,
     }
     else if (limits.depth != 0)
     {
-        _search_depth = limits.depth;
+        _search_depth = std::min<Depth>(limits.depth, MAX_DEPTH);
         _search_time = INFINITE_DURATION;
     }
     else if (limits.movetime != 0)
